@@ -749,7 +749,13 @@ impl PartitionedFileGroup {
             "No files would be left after deduplicating"
         );
         let mut commands = Vec::new();
-        let retained_file = Arc::new(self.to_keep.swap_remove(0));
+        // Link to a retained regular file; a retained symbolic link may point to a dropped file.
+        let retained_idx = self
+            .to_keep
+            .iter()
+            .position(|f| !f.path.to_path_buf().is_symlink())
+            .unwrap_or(0);
+        let retained_file = Arc::new(self.to_keep.swap_remove(retained_idx));
         for dropped_file in self.to_drop {
             match strategy {
                 DedupeOp::SymbolicLink => commands.push(FsCommand::SoftLink {
@@ -884,10 +890,15 @@ fn partition(
     to_retain.extend(to_drop.drain(0..missing_count));
 
     assert!(to_retain.len() >= n || to_drop.is_empty());
-    Ok(PartitionedFileGroup {
-        to_keep: to_retain.into_iter().flat_map(|g| g.files).collect(),
-        to_drop: to_drop.into_iter().flat_map(|g| g.files).collect(),
-    })
+    let to_keep: Vec<_> = to_retain.into_iter().flat_map(|g| g.files).collect();
+    let to_drop: Vec<_> = to_drop.into_iter().flat_map(|g| g.files).collect();
+
+    // A symbolic link holds no data. If nothing but symbolic links was retained, the files
+    // they point to could be among the dropped ones and the last copy of the data would be lost.
+    if !to_drop.is_empty() && to_keep.iter().all(|f| f.path.to_path_buf().is_symlink()) {
+        return error("Only symbolic links would be retained");
+    }
+    Ok(PartitionedFileGroup { to_keep, to_drop })
 }
 
 /// Generates a list of commands that will remove the redundant files in the groups provided
